@@ -466,7 +466,12 @@ def sk_open(data, suite, sk_a, sk_e):
     icv_ok = _hmac.compare_digest(integ(suite.integ, sk_a, data[:-icv]), data[-icv:])
     body = chain[-1]['body']
     if len(body) < 16 + 16 + icv or (len(body) - 16 - icv) % 16:
-        raise DecodeError('SK geometry' if icv_ok else 'ICV mismatch and SK geometry')
+        e2 = DecodeError('SK geometry' if icv_ok else 'ICV mismatch and SK geometry')
+        if not icv_ok:
+            e2.kind = _icv_diagnosis(data, suite, sk_a) or 'keys'
+            if e2.kind != 'keys':
+                e2.args = (f'the checksum is the right HMAC under SK_a but truncated to another length than the negotiated {icv} octets',)
+        raise e2
     iv, ct = body[:16], body[16:-icv]
     pt = aes_cbc(sk_e, iv, ct, decrypt=True)
     pad = pt[-1]
@@ -485,9 +490,18 @@ def sk_open(data, suite, sk_a, sk_e):
     if not icv_ok:
         # do the encryption keys work?  then the key schedule is right and it is the checksum construction that deviates
         e2 = DecodeError('ICV mismatch' + (' (but the ciphertext decrypts to a well-formed payload chain under SK_e)' if inner_ok else ''))
-        e2.kind = 'icv_only' if inner_ok else 'keys'
+        e2.kind = 'icv_only' if inner_ok else (_icv_diagnosis(data, suite, sk_a) or 'keys')
         raise e2
     return h, inner_chain, {'iv': iv, 'pad': pad, 'plain_len': len(inner), 'padding': pt[-1 - pad:-1]}
+
+
+def _icv_diagnosis(data, suite, sk_a):
+    """The negotiated checksum does not verify: is it nevertheless the right HMAC under the right key, cut to another length?"""
+    hfun = INTEG_HASH[suite.integ][0]
+    for ln in range(4, hfun().digest_size + 1):
+        if ln != suite.icv and len(data) > 28 + ln and _hmac.new(sk_a, data[:-ln], hfun).digest()[:ln] == data[-ln:]:
+            return 'icv_length'
+    return None
 
 
 def sk_seal(h, payloads, suite, sk_a, sk_e, iv, pad_extra=0):
